@@ -103,6 +103,8 @@ class FilterSummary:
             return inner.id
         if isinstance(inner, ast.Subscript) and isinstance(inner.value, ast.Name) and inner.value.id in self.chain:
             return inner.value.id
+        if isinstance(inner, ast.Call) and call_name(inner) == "np.compress" and len(inner.args) >= 2 and isinstance(inner.args[1], ast.Name) and inner.args[1].id in self.chain:
+            return inner.args[1].id
         if isinstance(inner, ast.Call) and call_name(inner) in ("np.minimum", "np.maximum", "np.clip", "np.fmin", "np.fmax"):
             for a in inner.args:
                 b = self._base_of(a)
@@ -160,16 +162,36 @@ class FilterSummary:
             if isinstance(sel, ast.Tuple):
                 sel = sel.elts[0]
             return self._classify_selection(sel, s, base)
+        # np.compress(mask, rows, axis=0) is rows[mask]
+        if isinstance(inner, ast.Call) and call_name(inner) == "np.compress" and len(inner.args) >= 2 and canon(inner.args[1]) == base:
+            ax = kw(inner, "axis") or (inner.args[2] if len(inner.args) > 2 else None)
+            if ax is not None and const_num(ax) == 0:
+                return self._classify_selection(inner.args[0], s, base)
         return Stage("other", s, {"value": canon(v)}, False, f"result rows are re-computed by {canon(v)[:60]} (not a clamp and not a row selection)")
 
     def _classify_selection(self, sel, s, base) -> Stage:
         nz = Normaliser(lambda n: self._mask_def(n, s))
+        # an index vector thinned with np.compress(mask, idx) is idx[mask] (index vectors from np.unique are 1-D)
+        if isinstance(sel, ast.Call) and call_name(sel) == "np.compress" and len(sel.args) == 2 and (kw(sel, "axis") is None or const_num(kw(sel, "axis")) == 0):
+            sel = ast.copy_location(ast.Subscript(value=sel.args[1], slice=sel.args[0], ctx=ast.Load()), sel)
         # negated out-of-box mask
         neg = False
         e = sel
         if isinstance(e, ast.UnaryOp) and isinstance(e.op, (ast.Invert, ast.Not)):
             neg, e = True, e.operand
         d = self._single_def(e, s)
+        # (a') the same mask written from the inside: ~any(U > hi, 1) & ~any(U < lo, 1) (De Morgan, exact row-wise)
+        atoms = self._conj_of_negs(sel, False, s)
+        if atoms:
+            joined = atoms[0]
+            for a_ in atoms[1:]:
+                joined = ast.BinOp(left=joined, op=ast.BitOr(), right=a_)
+            box_in = self._box_mask(joined, s)
+            if box_in is not None:
+                sides, elementwise = box_in
+                want = {("<", self.p_hi, self.p_rows), ("<", self.p_rows, self.p_lo)}
+                ok = sides == want and not elementwise
+                return Stage("box-drop", s, {"sides": sorted(sides)}, ok, "" if ok else f"out-of-box mask tests {sorted(sides)}, expected both U > hi and U < lo")
         # (a) box-drop: mask = any(U > hi, axis=1) | any(U < lo, axis=1)
         box = self._box_mask(d, s)
         if box is not None:
@@ -227,6 +249,38 @@ class FilterSummary:
     def _mask_def(self, name: ast.Name, at):
         d = self._defs_of(name.id, at)
         return d[0] if len(d) == 1 else None
+
+    def _conj_of_negs(self, e, neg, at, depth=0):
+        """atoms a_i such that (not e if neg else e) == AND_i not a_i, or None."""
+        if depth > 6:
+            return None
+        if isinstance(e, ast.Name):
+            d = self._single_def(e, at)
+            if d is e:
+                return [e] if neg else None
+            e = d
+        if isinstance(e, ast.UnaryOp) and isinstance(e.op, (ast.Invert, ast.Not)):
+            return self._conj_of_negs(e.operand, not neg, at, depth + 1)
+        if isinstance(e, ast.Call) and call_name(e) in ("np.invert", "np.logical_not") and len(e.args) == 1:
+            return self._conj_of_negs(e.args[0], not neg, at, depth + 1)
+        parts, kind = None, None
+        if isinstance(e, ast.BinOp) and isinstance(e.op, (ast.BitOr, ast.BitAnd)):
+            parts, kind = [e.left, e.right], "or" if isinstance(e.op, ast.BitOr) else "and"
+        elif isinstance(e, ast.Call) and call_name(e) in ("np.logical_or", "np.logical_and") and len(e.args) == 2:
+            parts, kind = list(e.args), "or" if call_name(e) == "np.logical_or" else "and"
+        elif isinstance(e, ast.BoolOp):
+            parts, kind = list(e.values), "or" if isinstance(e.op, ast.Or) else "and"
+        if parts is not None and kind == ("or" if neg else "and"):
+            out = []
+            for p_ in parts:
+                r = self._conj_of_negs(p_, neg, at, depth + 1)
+                if r is None:
+                    return None
+                out += r
+            return out
+        if parts is not None:
+            return None
+        return [e] if neg else None
 
     def _box_mask(self, d, at=None):
         """-> (set of (rel, a, b) sides, elementwise?) when d is an out-of-box mask."""
